@@ -10,14 +10,14 @@ LEVEL = "exploration"
 RULE = ("one history Built -> {Ser, De, Eq(restored)} x {bincode, json[, json with permuted keys]} -> Eq(self) -> "
         "{Alt(refit | other: independent / translated / rows-only), Eq} -> End per object, for every serialisable public "
         "type (5 linear models, logistic, k-NN x2, trees x2, forests x2, 4 naive Bayes, SVC/SVR x 4 kernels, k-means, "
-        "DBSCAN, PCA, SVD, cover tree, linear search, 5 distances, 4 kernels, DenseMatrix<f32/f64> of every shape "
+        "DBSCAN, PCA, SVD (every public output-producing method of each, incl. predict_oob of forests fitted with keep_samples), cover tree, linear search, 5 distances, 4 kernels, DenseMatrix<f32/f64> of every shape "
         "1..5 x 1..5) fitted on seeded integer-valued random data of random shape and observed on a fresh query matrix. "
         "A history is non-trivial when the original answered the query with at least two distinct output values, both "
         "formats restored an object, and (for a type with PartialEq) at least one model fitted on other data was "
         "observably different; distinct = distinct (type, configuration, digest of the training rows)")
 
 MC_COVER = ["Build", "Ser", "De", "EqRestored", "EqSelf", "Alt", "EqAlt", "Finish",
-            "Detect_serFail", "Detect_deFail", "Detect_deCorruptBits", "Detect_deDropsHidden", "Detect_jsonSloppy",
+            "Detect_serFail", "Detect_deFail", "Detect_deCorruptBits", "Detect_deDropsHidden", "Detect_deDropsAux", "Detect_jsonSloppy",
             "Detect_jsonDiscrete", "Detect_eqSubset", "Detect_eqNotReflexive", "Detect_eqPanics", "Detect_nondetFit"]
 
 MUST_HIT = ("Built", "BuiltNoEq", "SerBincode", "SerJson", "DeBincode", "DeJson", "DeJsonPermuted", "EqSelf",
@@ -27,7 +27,7 @@ MUST_HIT = ("Built", "BuiltNoEq", "SerBincode", "SerJson", "DeBincode", "DeJson"
 WHAT = {
     "SerFails": "serialisation failed for an object built from finite data",
     "DeFails": "deserialisation of the library's own output failed",
-    "RestoredRefuses": "the restored object refuses (error / panic) a query the original answered",
+    "RestoredRefuses": "the restored object refuses (error / panic) a public method call the original answered",
     "BincodeBits": "through bincode the restored object's outputs are not bit-identical",
     "JsonDiscrete": "through JSON a discrete output (label / index / shape) of the restored object differs",
     "JsonValues": "through JSON a continuous output of the restored object differs by more than the rounding slack",
@@ -49,12 +49,27 @@ def key_of(built, e, clause, alt):
     return "%s [%s]: %s %s" % (t, built["cfg"], clause, e.get("fmt", "-"))
 
 
+def answered(o):
+    """the per-method parts of an observation that were answered"""
+    return [p for p in o.get("parts", []) if p["status"] == "ok"] if o["status"] == "ok" else []
+
+
+def differ(o1, o2):
+    if o1["status"] != "ok" or o2["status"] != "ok" or len(o1["parts"]) != len(o2["parts"]):
+        return False
+    return any(p["status"] == "ok" and q["status"] == "ok" and any(p[k] != q[k] for k in ("dh", "dl", "ch", "cl", "shape"))
+               for p, q in zip(o1["parts"], o2["parts"]))
+
+
 def nontrivial(hist):
     b = hist[0]
     o = b["obs"]
-    if o["status"] != "ok":
+    parts = answered(o)
+    if not parts:
         return False
-    vals = set(zip(o["dh"], o["dl"])) | set(zip(o["ch"], o["cl"]))
+    vals = set()
+    for p in parts:
+        vals |= set(zip(p["dh"], p["dl"])) | set(zip(p["ch"], p["cl"]))
     if len(vals) < 2:
         return False
     des = [e for e in hist if e["ev"] == "De" and e["status"] == "ok"]
@@ -63,10 +78,8 @@ def nontrivial(hist):
     if not b["hasEq"]:
         return True
     for e in hist:
-        if e["ev"] == "Alt" and e["role"] == "other" and e["status"] == "ok" and e["obs"]["status"] == "ok":
-            ao = e["obs"]
-            if any(ao[k] != o[k] for k in ("dh", "dl", "ch", "cl", "shape")):
-                return True
+        if e["ev"] == "Alt" and e["role"] == "other" and e["status"] == "ok" and differ(o, e["obs"]):
+            return True
     return False
 
 
@@ -90,6 +103,13 @@ def run(ctx):
     hist = {}
     for e in events:
         hist.setdefault(e["run"], []).append(e)
+    # vacuity: the auxiliary methods must actually have been answered by some original object
+    for (ty, part) in (("RandomForestClassifier", "predict_oob"), ("RandomForestRegressor", "predict_oob"),
+                       ("SVC", "decision_function"), ("PCA", "components"), ("GaussianNB", "theta")):
+        n = sum(1 for h in hist.values() if h[0]["type"] == ty
+                and any(q["name"] == part for q in answered(h[0]["obs"])))
+        if n == 0:
+            raise vlib.ToolError("vacuous run: no %s object answered %s" % (ty, part))
     for (l, runid, ev, clause) in bads:
         if clause == "Protocol":
             raise vlib.ToolError("recorder produced an event the protocol does not admit at line %d" % l)
@@ -120,9 +140,7 @@ def run(ctx):
     for h in hist.values():
         for i, e in enumerate(h):
             if e["ev"] == "Eq" and e["kind"] == "other" and e["fmt"] == "rowsonly" and e["status"] == "ok" and e["result"]:
-                a = h[i - 1]["obs"]
-                o = h[0]["obs"]
-                if a["status"] == "ok" and o["status"] == "ok" and any(a[k] != o[k] for k in ("dh", "dl", "ch", "cl")):
+                if differ(h[0]["obs"], h[i - 1]["obs"]):
                     silent[h[0]["type"]] = silent.get(h[0]["type"], 0) + 1
     # outside the statement (other rows, SAME targets): recorded as information only
     ctx.extra["equal_to_model_on_other_rows_same_targets"] = silent
@@ -136,15 +154,15 @@ def run(ctx):
             for k in ("obs",):
                 if k in e:
                     o = dict(e[k])
-                    for kk in ("dh", "dl", "ch", "cl", "cfx"):
-                        o[kk] = o[kk][:4]
+                    o["parts"] = [dict(q, **{kk: q[kk][:3] for kk in ("dh", "dl", "ch", "cl", "cfx", "cok")}) for q in o["parts"]]
                     e[k] = o
             out.append(e)
         return out
     samples = []
-    for want in ("DBSCAN", "DenseMatrix", "SVC"):
+    for want in ("DBSCAN", "DenseMatrix", "RandomForestClassifier"):
         for h in hist.values():
-            if h[0]["type"] == want and (want != "DenseMatrix" or h[0]["cfg"] == "f32 2x3"):
+            if h[0]["type"] == want and (want != "DenseMatrix" or h[0]["cfg"] == "f32 2x3") \
+                    and (want != "RandomForestClassifier" or h[0]["cfg"] == "keep-samples"):
                 samples.append(slim(h))
                 break
     ctx.samples = samples
@@ -154,7 +172,9 @@ def run(ctx):
         "JSON is parsed with serde_json's float_roundtrip (correctly rounded), so an f64 field survives JSON exactly; "
         "'up to decimal rounding' is applied to every continuous output (one unit of 2^-16 fixed point) and excuses "
         "original == restored only for f32 objects whose restored state digest differs",
-        "observation = outputs on ONE fresh random query matrix per object (6 rows); 'arbitrary inputs' is sampled, not proved",
+        "observation = outputs of EVERY public output-producing method (predict, predict_oob on the training matrix, "
+        "decision_function, transform, components/coefficients/intercept and the naive-Bayes accessors, find/find_radius, "
+        "distance, apply) on ONE fresh random query matrix per object (6 rows); 'arbitrary inputs' is sampled, not proved",
         "types without PartialEq (distances, kernels, LinearKNNSearch) are checked for the observation clauses only",
         "the state digest (FNV-64 of the bincode bytes) identifies the serialised state up to hash collisions",
     ]
